@@ -360,6 +360,34 @@ pub fn run(ctx: &Ctx) -> (Stats, Report) {
         }
     });
     st.merge(s);
+    // C1b: intervals built from the date's own time of day (the diagonal of the borrow / carry
+    // logic): t, k days + t, one day - t, with and without a fraction, both operations
+    {
+        let dates = pools::date_pool(seed, if ctx.thorough { 4000 } else { 600 });
+        let dref = &dates;
+        let s = par_sweep(dates.len() as u64, 8, |range, st| {
+            for k in range {
+                let n = dref[k as usize];
+                for sec in [1i128, 59, 3600, 26_621, 43_200, 67_209, 86_399] {
+                    let x = n * US_PER_DAY + sec * US_PER_SEC;
+                    let tt = sec * US_PER_SEC;
+                    for iv in [tt, 3 * US_PER_DAY + tt, US_PER_DAY - tt, tt + 250_000, 5 * US_PER_DAY + (US_PER_DAY - tt) - 360_000, US_PER_DAY - US_PER_SEC + 640_000] {
+                        for sub in [false, true] {
+                            for sign in [1i128, -1] {
+                                st.evaluations += 1;
+                                st.nontrivial_enum += 1;
+                                if let Err(m) = check_add_dt(x, sign * iv, sub) {
+                                    st.fail(k, Case::new(P, "add_dt", vec![x, sign * iv, sub as i128], vec![]), m);
+                                    return;
+                                }
+                            }
+                        }
+                    }
+                }
+            }
+        });
+        st.merge(s);
+    }
     // C2: year-month arithmetic = the timestamp result, walking all dates with the operation and
     // the offset held fixed (ascending and descending), so that consecutive calls share a month
     {
